@@ -38,30 +38,41 @@ from ..world import World
 PROPERTY = "C18"
 LEVEL = "exploration"
 RULE = (
-    "async: every sequence of <= 4 (thorough 5) calls over {serve_forever, shutdown, server_close, client connects + one request} "
-    "(<= 2 serve_forever, <= 2 shutdown, <= 2 server_close, <= 1 client) x {TCP, UDP}; each call is its own task started at a "
-    "loop-iteration boundary: default = the boundary at which the previous call has completed (serve_forever: is up), costed "
-    "deviations = start it at ANY earlier boundary since the previous call was started (incl. the same boundary) or at ANY later "
-    "boundary until the loop idles (one deviation per moved call, the position is enumerated freely); deviation bound 2 (thorough 3). "
-    "threads: every multiset of <= 3 (thorough 4) calls over {serve_forever, shutdown, server_close} (+ NetworkServerThread "
-    "start/join scenarios), one REAL thread per call, with and without a connection waiting in the backlog, scheduled at every "
-    "lock / event / condition / select / call_soon_threadsafe point: which thread runs first and every switch at a blocking point "
-    "are enumerated freely, preemptions are bounded by 2 (thorough 3). distinct_nontrivial = distinct (configuration, results, "
-    "final state) observations among executions with at least one non-default choice"
+    "ASYNC (AsyncTCPNetworkServer / AsyncUDPNetworkServer on the virtual loop): every sequence of <= 4 (thorough 5) calls over "
+    "{S=serve_forever, H=shutdown, C=server_close, K=a client connects and sends one request} with <= 2 S, <= 2 H, <= 2 C, <= 1 K, "
+    "x {TCP, UDP} x {1, 2 listeners}; each call is its own task started at a loop-iteration boundary: default = the boundary at which "
+    "the previous call has completed (serve_forever: is up; client: answered), deviations = start it at ANY earlier boundary since "
+    "the previous call was started (including the very same boundary) or at ANY later boundary until the loop idles; the deviation "
+    "bound equals the number of calls, i.e. EVERY call is tried at EVERY boundary (complete for these sequences). "
+    "THREADS (StandaloneTCPNetworkServer / StandaloneUDPNetworkServer, NetworkServerThread): thread sets of 1..3 (thorough 4) REAL "
+    "threads, one per call over {S, H, C, N=NetworkServerThread.start()+join()}, with and without a connection/datagram waiting "
+    "in the backlog, scheduled by mc/vthreads.py at every lock / event / condition / select / call_soon_threadsafe / thread "
+    "start-join-exit point (about 60-90 points per execution): which thread runs first is enumerated freely; every other "
+    "non-default decision - a PREEMPTION at any point, or resuming another thread than the canonical one when the running "
+    "thread blocks - costs one deviation; bound 2 (thorough 3 for the two-thread sets and for SHC/SSH/SCC, 2 for four threads); "
+    "three-thread sets are also run with the opposite default priority (quick: SHC and SSH only). "
+    "distinct_nontrivial = distinct (configuration, results of the calls, final state) among executions with a non-default choice"
 )
 ASSUMPTIONS = [
     "data races on unsynchronised Python state between scheduling points are not explored (threads switch only at lock / event / "
-    "condition / select / call_soon_threadsafe / thread start-exit points)",
-    "listeners are FakeSockets handed out by an AsyncIOBackend subclass (create_tcp_listeners / create_udp_listeners yield once, "
-    "like the real DNS resolution, then build the real ListenerSocketAdapter / DatagramListenerSocketAdapter); bind errors are not enumerated",
-    "one listener per server, at most one client, request handlers are plain echo handlers with no service_init work",
-    "server_close raising BusyResourceError while a serve_forever is between its start and 'is up' is the documented latitude: then it has no obligations",
-    "a shutdown / server_close whose call began before a serve_forever began is not required to stop it (threads: before that serve_forever was up)",
-    "asyncio backend only; shutdown(timeout=None) only",
+    "condition / select / call_soon_threadsafe / thread start-join-exit points; the GIL makes single container operations atomic)",
+    "threads part: a non-default choice of the thread that resumes after the running one blocked is counted in the same budget as "
+    "preemptions (only the choice of the first thread is free), so 'bound 2' is weaker than CHESS-style preemption bound 2",
+    "listeners are FakeSockets handed out by an AsyncIOBackend subclass whose create_tcp_listeners / create_udp_listeners have the "
+    "shape of the real methods (one await for the address resolution, sockets opened synchronously, UDP endpoints created one "
+    "after the other with the real loop.create_datagram_endpoint, the real ListenerSocketAdapter / DatagramListenerSocketAdapter); "
+    "bind errors are not enumerated",
+    "at most one client; echo request handlers with no service_init / service_quit work; the client never disconnects by itself",
+    "server_close raising BusyResourceError while a serve_forever is between its start and 'is up' is the documented latitude: "
+    "then it has no obligations",
+    "server_close is not required to make a running serve_forever return (it keeps serving connected clients); shutdown is",
+    "a shutdown whose call began before a serve_forever began (threads: before it was up) is not required to stop it",
+    "asyncio backend only; shutdown(timeout=None) only; the event loop of the standalone servers is the stock asyncio "
+    "SelectorEventLoop on the virtual selector, injected with runner_options={'loop_factory': ...}",
 ]
 BOUNDS = {
-    "quick": "async: sequences <= 4 calls, deviation bound 2; threads: <= 3 threads, preemption bound 2",
-    "thorough": "async: sequences <= 5 calls, deviation bound 3; threads: <= 4 threads, preemption bound 3 (4 threads: 2)",
+    "quick": "async: sequences <= 4 calls, every call at every boundary; threads: <= 3 threads, deviation bound 2 (backlog client with 3 threads: SHC/SSH/SCC only)",
+    "thorough": "async: sequences <= 5 calls, every call at every boundary; threads: <= 4 threads, deviation bound 3 (2 threads, SHC/SSH/SCC) / 2",
 }
 
 logging.getLogger("easynetwork").setLevel(logging.CRITICAL + 1)
@@ -838,6 +849,7 @@ def thread_configs(tier: str) -> list[dict]:
     two = ["SS", "SH", "SC", "HC", "NH", "NC", "NS"]
     three = ["SHC", "SSH", "SSC", "SHH", "SCC", "NHC"]
     three_alt = ["CHS", "HSS", "CSS", "HHS", "CCS", "CHN"]  # the same sets with the opposite default priority
+    deep = ("SHC", "SSH", "SCC")  # thorough: bound 3
     four = ["SSHC", "SHHC", "SHCC", "SSHH"]
     out = []
     for kind in ("tcp", "udp"):
@@ -845,8 +857,12 @@ def thread_configs(tier: str) -> list[dict]:
             for m in one + two:
                 out.append({"kind": kind, "ops": m, "client": client, "bound": 2 if quick else 3})
             for m in three:
-                out.append({"kind": kind, "ops": m, "client": client, "bound": 2 if quick or client else 3})
+                if quick and client and m not in deep:
+                    continue  # quick: the backlog client only with SHC / SSH / SCC
+                out.append({"kind": kind, "ops": m, "client": client, "bound": 3 if (not quick and client == 0 and m in deep) else 2})
         for m in three_alt:
+            if quick and m not in ("CHS", "HSS"):
+                continue
             out.append({"kind": kind, "ops": m, "client": 0, "bound": 2})
         if not quick:
             for m in four:
@@ -950,7 +966,14 @@ def jobs(tier: str) -> list[dict]:
                     out.append({"part": "async", "kind": kind, "nlisten": nlisten, "seqs": ch, "bound": 5, "tier": tier, "chunk": k})
     for cfg in thread_configs(tier):
         n = len(cfg["ops"])
-        parts = 1 if n == 1 else (2 if n == 2 and cfg["bound"] == 2 else (6 if cfg["bound"] == 2 and n == 3 else 24))
+        if n == 1:
+            parts = 1
+        elif n == 2:
+            parts = 2 if cfg["bound"] == 2 else 6
+        elif n == 3:
+            parts = 6 if cfg["bound"] == 2 else 40
+        else:
+            parts = 24
         for part in range(parts):
             out.append({"part": "threads", **cfg, "slices": parts, "slice": part, "tier": tier})
     return out
